@@ -14,8 +14,8 @@ MANIFEST = {
     'engine': 'E1',
     'technique': 'bounded exhaustive enumeration of shape combinations x destination shapes x argument counts on the real code vs reference lifting/fitting rules',
     'text': 'All 15 operators and 32 element-wise functions are evaluated on every stretch-compatible combination of argument shapes '
-            '(scalar, 1xn, mx1, mxn; m,n <= 3 quick / 4 thorough) with position-coded elements and one error/blank/text/logical element per argument, '
-            'as array literals and as referenced ranges; every result shape <= 4x4 is stored into every destination shape <= 4x4; CONCATENATE/IFS/SWITCH are '
+            '(scalar, 1xn, mx1, mxn; m,n <= 3 quick / 4 thorough) with position-coded elements and one error/blank/text/logical element per argument (and every ordered pair of arguments holding two different errors), '
+            'as array literals and as referenced ranges; every result shape <= 4x4 (also produced next to an error-valued scalar operand) is stored into every destination shape <= 4x4; CONCATENATE/IFS/SWITCH are '
             'called with 1..40 arguments with the non-scalar argument first, 31st..33rd and last (thorough: every position; plus mixed literal/reference '
             'spelling, four 4-argument calls and five more result producers).  Each array result is compared position by position with the '
             'implementation\'s own scalar result for the element tuple selected by the reference broadcasting / fitting rule; nothing sampled. The argument-count space also uses arrays whose elements are equal as Python values but of different Excel kinds ({1,TRUE,1,"1"}, {0,FALSE;"",0}).',
